@@ -33,6 +33,30 @@ pub fn run(input: &[u8], rec: &mut Rec) {
         }
         rec.push_n(&format!("onparse.{}", mask), calls.load(Ordering::SeqCst));
     }
+    // one configuration value used for four parses of the same input; its callback rejects the module the first
+    // time it runs and accepts it afterwards: every parse that succeeds must have run the callback exactly once
+    {
+        let calls = Arc::new(AtomicU64::new(0));
+        let c2 = calls.clone();
+        let mut cfg = cfg_from_mask(DEFAULT_CFG);
+        cfg.on_parse(move |_, _| {
+            if c2.fetch_add(1, Ordering::SeqCst) == 0 {
+                anyhow::bail!("rejected by the callback")
+            }
+            Ok(())
+        });
+        let mut line = String::new();
+        for _ in 0..4 {
+            let before = calls.load(Ordering::SeqCst);
+            let r = match guarded(|| cfg.parse(input).map(|_| ())) {
+                Ok(Ok(())) => "ok",
+                Ok(Err(_)) => "err",
+                Err(_) => "panic",
+            };
+            line.push_str(&format!("{}:{} ", r, calls.load(Ordering::SeqCst) - before));
+        }
+        rec.push_s("reuse", line.trim());
+    }
     // repeated round trips, default configuration
     let mut cur = input.to_vec();
     for round in 1..=5u32 {
